@@ -597,14 +597,18 @@ func indexOfCallResult(in ssa.Instruction) bool {
 		return false
 	}
 	for _, g := range an.GuardsOf(in.Block()) {
-		b, ok := g.Cond.(*ssa.BinOp)
-		if !ok || b.Op != token.EQL || !g.True {
+		cmp, ok := an.CmpOf(g)
+		if !ok {
 			continue
 		}
-		if call, ok := b.X.(*ssa.Call); ok && call.Common().IsInvoke() && call.Common().Method.Name() == "NumOut" {
-			if m, isM := an.ConstInt(b.Y); isM && k < m {
-				return true
-			}
+		if cmp.Is(token.EQL, func(v ssa.Value) bool {
+			call, ok := v.(*ssa.Call)
+			return ok && call.Common().IsInvoke() && call.Common().Method.Name() == "NumOut"
+		}, func(v ssa.Value) bool {
+			m, isM := an.ConstInt(v)
+			return isM && k < m
+		}) {
+			return true
 		}
 	}
 	return false
